@@ -208,14 +208,13 @@ struct Machine {
 		else if (c == 'S') { R[a[0]].splitBatch(a[1], a[2]); }
 		else if (c == 'O') { std::vector<std::size_t> s(a.begin() + 1, a.end()); R[a[0]].reorderElements(s); }
 		else if (c == 'G') { std::vector<std::size_t> s(a.begin() + 3, a.end()); F = createCVIndexed(R[a[0]], a[1], s, a[2]); }
-		else if (c == 'H') { F = createCVBatch(R[a[0]], a[1]); }
 		else if (c == 'T') { DS t = F.training(a[1]); R[a[0]] = t; }
 		else if (c == 'U') { DS t = F.validation(a[1]); R[a[0]] = t; }
 		else if (c == 'D') { V = DataView<DS>(R[a[0]]); }
 		else if (c == 'E') { auto e = V[a[0]]; e.input = Enc<I>::make(a[1]); e.label = (unsigned)a[2]; }
 		else { o << " ?"; return; }
 		dumpAll(o);
-		if (c == 'G' || c == 'H') {
+		if (c == 'G') {
 			o << " folds=";
 			for (std::size_t p = 0; p != F.size(); ++p) {
 				if (p) o << ";";
